@@ -344,6 +344,9 @@ pub fn cases_for(spec: &FnSpec, cap: u64, thorough: bool) -> Vec<J> {
             args.iter().enumerate().map(|(n, (i, _))| if spec.params[*i].2 { format!(".a{n}") } else { format!("{}: .a{n}", spec.params[*i].0) }).collect();
         let ev: Vec<String> = args.iter().map(|(_, t)| t.clone()).collect();
         out.push(json!({"fn": spec.name, "mode": "runtime", "args": rt_args.join(", "), "closure": cl, "event_src": ev, "kinds": args.iter().map(|(i, _)| spec.params[*i].1).collect::<Vec<u16>>()}));
+        // same runtime-typed arguments, but compiled under an environment that DECLARES their exact kinds
+        // (so the call is type-checked like a call on literals, yet no argument is a compile-time constant)
+        out.push(json!({"fn": spec.name, "mode": "typed", "args": rt_args.join(", "), "closure": cl, "event_src": ev, "kinds": args.iter().map(|(i, _)| spec.params[*i].1).collect::<Vec<u16>>()}));
     };
     let base = if thorough { 12 } else { 4 };
     for idx in 0..total.max(1) {
@@ -416,7 +419,8 @@ pub fn run_case(w: &J) -> J {
     let name = w["fn"].as_str().unwrap_or("");
     let args = w["args"].as_str().unwrap_or("");
     let cl = w["closure"].as_str().unwrap_or("");
-    let runtime = w["mode"] == "runtime";
+    let typed = w["mode"] == "typed";
+    let runtime = w["mode"] == "runtime" || typed;
     let mut viol: Vec<J> = Vec::new();
     let mut push = |tag: &str, clause: &str, expected: String, observed: String| {
         viol.push(json!({"tag": tag, "clause": clause, "expected": expected, "observed": observed}));
@@ -441,7 +445,16 @@ pub fn run_case(w: &J) -> J {
     let plain = format!("{name}({args}){cl}");
     let bang = format!("{name}!({args}){cl}");
     let t0 = Instant::now();
-    let compile = |src: &str| FNS.with(|fns| guarded(|| vrlx::compile_ext(src, fns, &ExternalEnv::default(), CompileConfig::default())));
+    let env = if typed {
+        let mut c: vrl::value::kind::Collection<vrl::value::kind::Field> = vrl::value::kind::Collection::empty();
+        for (n, v) in arg_values.iter().enumerate() {
+            c = c.with_known(format!("a{n}").as_str(), vrl::value::Kind::from(v));
+        }
+        ExternalEnv::new_with_kind(vrl::value::Kind::object(c), vrl::value::Kind::object(vrl::value::kind::Collection::any()))
+    } else {
+        ExternalEnv::default()
+    };
+    let compile = |src: &str| FNS.with(|fns| guarded(|| vrlx::compile_ext(src, fns, &env, CompileConfig::default())));
     let (program, used_bang) = match compile(&plain) {
         Err(p) => {
             push("C04", "C04.compile-panic", "compiling a stdlib call does not panic".into(), p);
@@ -491,7 +504,7 @@ pub fn run_case(w: &J) -> J {
             if kind_bit(v) & rk == 0 {
                 push("C03", "C03.result-in-return-kind", format!("root kind of {} within documented return_kind mask {rk:#b}", vv::show(v)), format!("kind bit {:#b}", kind_bit(v)));
             }
-            if runtime {
+            if runtime && !typed {
                 // a wrong-typed runtime argument must produce an error
                 let kinds: Vec<u16> = w["kinds"].as_array().map(|a| a.iter().map(|k| k.as_u64().unwrap_or(0) as u16).collect()).unwrap_or_default();
                 for (n, (v, k)) in arg_values.iter().zip(&kinds).enumerate() {
@@ -899,7 +912,7 @@ pub fn run_for(property: &'static str, tier: Tier) -> Report {
     rep.set("functions_with_no_successful_call", json!(zero_ok));
     rep.set(
         "rule",
-        "for every stdlib function (nondeterministic/IO ones excluded): full cross product of the required parameters' alphabets (declared enum variants + literals harvested from the function's own examples + per-kind edge values; shrunk longest-first to the per-function cap), each optional parameter added one value at a time (thorough: also pairs), every closure body of the alphabet; each tuple as all-literal arguments and as runtime-typed arguments (`.a0`, … read from the event) plus non-UTF-8 bytes / ±inf in every required position; a case is non-trivial when the compiler accepted the call (plain or with `!`) and it was executed; distinct by construction (the cross product has no repeats)",
+        "for every stdlib function (nondeterministic/IO ones excluded): full cross product of the required parameters' alphabets (declared enum variants + literals harvested from the function's own examples + per-kind edge values; shrunk longest-first to the per-function cap), each optional parameter added one value at a time (thorough: also pairs), every closure body of the alphabet; each tuple as all-literal arguments, as runtime-typed arguments (`.a0`, … read from the event, environment `any`) and as runtime-typed arguments under an environment declaring their exact kinds plus non-UTF-8 bytes / ±inf in every required position; a case is non-trivial when the compiler accepted the call (plain or with `!`) and it was executed; distinct by construction (the cross product has no repeats)",
     );
     rep.assume("every call runs in a sacrificial worker process (RLIMIT_AS 3 GiB; watchdog: 4 s of CPU time per call, re-confirmed with 60 s of CPU time in a fresh worker unless the exact witness is a listed known finding; wall-clock only as a 15x backstop)");
     rep.assume("excluded: dns_lookup, reverse_dns, http_request (network) and log (writes to the process output); random/environment functions are swept (type, panics, termination) but their values are never compared");
